@@ -38,7 +38,7 @@ impl EventsSource {
 pub struct MutinyStream { pub stream_id: u32, pub events_source: EventsSource }
 """
 FNS = [
-    FnSpec(F, "poll_next", impl=IMPL, props=["C06", "C07", "C04", "C01"],
+    FnSpec(F, "poll_next", impl=IMPL, props=["C06", "C07", "C04", "C01", "C10", "C03"],
            sig="pub fn poll_next(&mut self, cx: &mut Context) -> (r: Poll<Option<Item>>)",
            sig_anchor=r"fn poll_next\(self: Pin<&mut Self>, cx: &mut Context<'_>\) -> Poll<Option<Self::Item>>",
            rules=[Rule("R3-Poll", r"\bPoll::", "Poll::", min=1)],
